@@ -43,6 +43,13 @@ def domain(width):
         b = D.atom("beta", "str", None, "mnist")
         b["doc"] = exact(w - 44 + delta, "q")
         irs.append(("w.fine%d" % delta, D.make_ir([("alpha", a), ("beta", b)], None, summary="Summary.")))
+    # the default sentence in the MIDDLE of the prose (what a hand-written docstring looks like): the break may fall right after its full stop
+    for delta in range(0, 30, 2):
+        a = D.atom("alpha", "int", None, 4)
+        a["doc"] = exact(w - 36 + delta, "p") + ". Defaults to 4. Values below one are clamped to one"
+        b = D.atom("beta", "float", None, 0.5)
+        b["doc"] = exact(w - 30 + delta, "q") + ". Defaults to 0.5. Larger values are cut off"
+        irs.append(("w.mid%d" % delta, D.make_ir([("alpha", a), ("beta", b)], None, summary="Summary.")))
     return irs
 
 
